@@ -5,6 +5,8 @@ An expression is a JSON list:
   ["n", 3] ["s", "x"] ["b", true] ["e", "#N/A"]        literals
   ["r", b, s, r1, c1, r2, c2]                          reference, abstract coords
   ["nm", k]                                            defined name k of the world
+  ["an", b, s, r, c]                                   spill reference B1# to the array
+                                                       formula anchored at (r, c)
   ["w", b, s, r1, c1, r2, c2, "row"|"col"]             whole rows r1..r2 / columns
                                                        c1..c2; the rectangle is the
                                                        part of them inside the window
@@ -130,6 +132,9 @@ def refs_of(e):
         k = x[0]
         if k in ('r', 'nm'):
             out.append(x)
+        elif k == 'an':
+            # spill reference B1#: depends on the (array) cell standing there
+            out.append(['r', x[1], x[2], x[3], x[4], x[3], x[4]])
         elif k == 'w':
             # whole rows / columns: the cells it can hold are those of the
             # window recorded when the reference was made
@@ -254,6 +259,11 @@ class Renderer:
                 self.lit(['s', v]) for v in row) for row in e[1])
         if k in ('r', 'w'):
             return self.ref(e, host)
+        if k == 'an':     # spill reference, stored by Excel as a function call
+            cell = ['r', e[1], e[2], e[3], e[4], e[3], e[4]]
+            if self.mode == 'dict':
+                return self.ref(cell, host) + '#'
+            return '_xlfn.ANCHORARRAY(%s)' % self.ref(cell, host)
         if k == 'nm':
             return self.name(e, host)
         if k == 'vn':    # defined name holding a formula (volatile names)
